@@ -287,6 +287,38 @@ func runCode(md protoreflect.MessageDescriptor, types *dynamicpb.Types, fd proto
 	return vc.L{fieldVal(m, fd, &bits)}, bits
 }
 
+// the same text as the next message of a long-lived stream decoder (one per option set, shared by all fields, replaced after
+// an error just as a real stream ends at its first error): whatever was decoded before must not show in this message
+type streamDec struct {
+	buf *bytes.Buffer
+	dec transcoding.Decoder
+}
+
+var streamDecs = map[bool]*streamDec{}
+
+func runStream(md protoreflect.MessageDescriptor, types *dynamicpb.Types, fd protoreflect.FieldDescriptor, text string, discard bool) (res vc.Val, bits []uint64) {
+	s := streamDecs[discard]
+	if s == nil {
+		s = &streamDec{buf: &bytes.Buffer{}}
+		s.dec = marshaler[discard].NewDecoder(types, s.buf)
+		streamDecs[discard] = s
+	}
+	s.buf.WriteString(text)
+	s.buf.WriteString("\n")
+	m := dynamicpb.NewMessage(md)
+	defer func() {
+		if r := recover(); r != nil {
+			res = vc.L{99}
+			delete(streamDecs, discard)
+		}
+	}()
+	if err := s.dec.Decode(m, fd); err != nil {
+		delete(streamDecs, discard)
+		return vc.L{}, nil
+	}
+	return vc.L{fieldVal(m, fd, &bits)}, bits
+}
+
 func runRef(md protoreflect.MessageDescriptor, types *dynamicpb.Types, fd protoreflect.FieldDescriptor, text string, discard bool) (vc.Val, []uint64) {
 	m := dynamicpb.NewMessage(md)
 	wrapped := fmt.Sprintf(`{%q: %s}`, fd.JSONName(), text)
@@ -367,6 +399,17 @@ func decodePart(w *vc.Writer, r *vc.Rand) {
 			cardv = vc.L{2, kindSpec(keyKind)}
 		}
 		w.Case(vc.L{kindSpec(k), cardv, discard, treeOf(tree)}, vc.L{code, ref, agree}, len(code.(vc.L)) > 0)
+		// and once more as the next message of a stream
+		scode, sbits := runStream(md, types, fd, text, discard)
+		sagree := true
+		if len(sbits) == len(rbits) {
+			for i := range sbits {
+				if sbits[i] != rbits[i] {
+					sagree = false
+				}
+			}
+		}
+		w.Case(vc.L{kindSpec(k), cardv, discard, treeOf(tree)}, vc.L{scode, ref, sagree}, len(scode.(vc.L)) > 0)
 	}
 	fields := md.Fields()
 	for k, n := range kindNames {
